@@ -71,7 +71,8 @@ def rule_sort(ctx):
         used = [e.a for e in p.calls('_numpy_interp')] + [e.a for e in p.calls('_interp_internal_get_weights')]
         for c in used:
             arg = c[2][1] if T.call_name(c) == '_numpy_interp' else c[2][0]
-            if arg != xp:
+            same = _canon_axis_addressing(arg, obj, p.guards) == xp
+            if arg != xp and not same:
                 ctx.violated('R1', fi, T.show(c)[:140], 'the interpolation nodes must be the labels of the object returned by _interp_internal_maybe_sort', node=p.node)
                 okx = False
     if okx:
@@ -81,6 +82,22 @@ def rule_sort(ctx):
     if not any(T.dotted(e.a[1]) == 'np.interp' and e.a[2][:3] == (P_('x'), P_('xp'), P_('yp')) and T.kw(e.a, 'left') == P_('left') and T.kw(e.a, 'right') == P_('right')
                for p in ev.paths for e in p.calls('interp')):
         ctx.violated('R3', f, '_numpy_interp', '_numpy_interp must call np.interp(x, xp, yp, left=left, right=right)')
+
+
+def _canon_axis_addressing(t, obj, guards):
+    """t with obj.axes[<the interpolated axis>] written the one way the clauses read it (obj.axes[axis]): the same axis may be addressed by the caller's `axis`, by its
+    resolved position or name, or - on a path where the array is known to be 1-d - as the only one (position 0 / -1)"""
+    AXIS = P_('axis')
+    axes_t = ('attr', obj, 'axes')
+    gais = [('call', ('attr', r, '_get_axis_info'), (AXIS,), ()) for r in (SELF, obj)]
+    idx = [('item', g, k) for g in gais for k in (0, 1)]
+    one_d = any(a[0] == 'cmp' and a[2][0] == 'attr' and a[2][2] == 'ndim' and a[1] == '==' and a[3] == T.const(1) and pol is True for a, pol in guards) or \
+        any(a[0] == 'cmp' and a[1] == '<' and a[2] == T.const(1) and a[3][0] == 'attr' and a[3][2] == 'ndim' and pol is False for a, pol in guards)
+    if one_d:
+        idx += [T.const(0), T.const(-1)]
+    for i in idx:
+        t = T.replace(t, ('sub', axes_t, i), ('sub', axes_t, AXIS))
+    return t
 
 
 def rule_bookkeeping(ctx):
@@ -104,7 +121,7 @@ def rule_bookkeeping(ctx):
             return self._p.calls(name)
     cases = [_Case(p, v_, g_) for p in ret_paths(ev) for v_, g_ in alternatives(strip(p.value), into_comps=False)]
     for p in cases:
-        v = strip(p.value)
+        v = _canon_axis_addressing(strip(p.value), obj, p.guards)
         cons = v if (v[0] == 'call' and T.call_name(v) == '_constructor') else None
         if cons is None or T.call_receiver(cons) != obj:
             ctx.violated('R2', fi, 'return ' + T.show(v)[:120], 'the result is built by obj._constructor(newval, newaxes)', node=p.node)
@@ -259,7 +276,18 @@ def rule_weights(ctx):
                 ctx.holds('R4', 'sentinels separate for every axis length')
         lhs = ('call', ('attr', ('name', 'np'), 'asarray'), (ni,), (('dtype', ('name', 'int')),))
         rhs = ('call', ('attr', ('name', 'np'), 'asarray'), (('call', ('attr', ('name', 'np'), 'ceil'), (ni,), ()),), (('dtype', ('name', 'int')),))
-        if d['lhs_idx'] != lhs or d['rhs_idx'] != rhs or d['frac'] != ('binop', '-', ni, lhs):
+        def as_int(x):
+            # np.asarray(y, dtype=int) / y.astype(int): the integer cast of y
+            if x[0] == 'call' and T.dotted(x[1]) in ('np.asarray', 'np.array') and len(x[2]) == 1 and T.kw(x, 'dtype') == ('name', 'int'):
+                return x[2][0]
+            if x[0] == 'call' and T.call_name(x) == 'astype' and x[1][0] == 'attr' and x[2] == (('name', 'int'),):
+                return x[1][1]
+            return None
+        npf = lambda f, y: ('call', ('attr', ('name', 'np'), f), (y,), ())
+        # (the positions are >= 0: truncation and floor are the same cast)
+        lhs_ok = as_int(d['lhs_idx']) in (ni, npf('floor', ni), npf('trunc', ni))
+        rhs_ok = as_int(d['rhs_idx']) == npf('ceil', ni)
+        if not (lhs_ok and rhs_ok and d['frac'] == ('binop', '-', ni, d['lhs_idx'])):
             ctx.violated('R5', fi, 'lhs/rhs/frac', 'lhs = int(idx), rhs = ceil(idx), frac = idx - lhs', node=p.node)
         else:
             ctx.holds('R5', 'lhs = int(idx), rhs = ceil(idx), frac = idx - lhs')
